@@ -296,6 +296,9 @@ def cy_prop(prop, tier, seed, replay, kinds, note, rule):
            "oracle_laws_checked_by_tlc": fam["laws"], "universe_sizes": fam["universe_sizes"],
            "harness_stats": fam["stats"], "binding_selftest": fam["selftest"], "samples": samples,
            "known_findings_seen": nk, "findings_total_all_properties": len(fam["findings"])}
+    import checks as _checks
+    if prop in _checks.SIDE_MODELS:
+        cov["design_models"] = _checks.run_side_models(prop, tier)
     vlib.write_evidence(prop, tier, seed, "model_checking", cov, time.time() - t0, nv, ASSUME_COMMON + [note])
     return 1 if nv else 0
 
